@@ -63,7 +63,7 @@ func c10Generate(thorough bool) []c10Case {
 	if thorough {
 		k = 3
 	}
-	names := []string{"a", `"a"`, "[a]", "`a`", "é", "A"}
+	names := []string{"a", `"a"`, "[a]", "`a`", "é", "A", "'a'"}
 	for _, cl := range c10ConsLists(k) {
 		for ti, ty := range c10Types {
 			if ti > 0 && !strings.Contains(cl, "PRIMARY KEY") && ti != 4 && ti != 1 {
@@ -88,7 +88,7 @@ func c10Generate(thorough bool) []c10Case {
 	red := []string{"", "TEXT COLLATE NOCASE", "INTEGER PRIMARY KEY", "PRIMARY KEY", "UNIQUE", "COLLATE RTRIM UNIQUE", "TEXT PRIMARY KEY DESC", "NOT NULL DEFAULT 'x'", "INT UNIQUE COLLATE NOCASE", "REFERENCES o (x) DEFERRABLE"}
 	tcs := []string{"PRIMARY KEY (a)", "PRIMARY KEY (b)", "PRIMARY KEY (a DESC)", "PRIMARY KEY (b, a)", "PRIMARY KEY (a, b DESC)", "PRIMARY KEY (a COLLATE NOCASE)", "PRIMARY KEY (a, a)", "PRIMARY KEY (b COLLATE RTRIM DESC, a)",
 		"UNIQUE (a)", "UNIQUE (b)", "UNIQUE (a DESC)", "UNIQUE (a, b)", "UNIQUE (b, a)", "UNIQUE (a COLLATE NOCASE)", "UNIQUE (a COLLATE BINARY)", "UNIQUE (A)", "UNIQUE (b COLLATE RTRIM, a DESC)", "CONSTRAINT cn UNIQUE (a)", "CONSTRAINT cn PRIMARY KEY (a)",
-		"FOREIGN KEY (a) REFERENCES o (x)", "UNIQUE (a) ON CONFLICT REPLACE"}
+		"FOREIGN KEY (a) REFERENCES o (x)", "UNIQUE (a) ON CONFLICT REPLACE", "UNIQUE ('a')", "PRIMARY KEY ('b', \"a\" DESC)"}
 	tcLists := [][]string{{}}
 	for _, t := range tcs {
 		tcLists = append(tcLists, []string{t})
@@ -144,7 +144,7 @@ func c10Generate(thorough bool) []c10Case {
 		"CREATE TABLE t (a PRIMARY KEY, b COLLATE NOCASE UNIQUE, c, UNIQUE (c, a))",
 	}
 	mods := []string{"", " COLLATE NOCASE", " DESC", " COLLATE RTRIM DESC", " COLLATE BINARY ASC"}
-	colsets := [][]string{{"a"}, {"b"}, {"c"}, {"a", "b"}, {"b", "a"}, {"c", "b"}, {"a", "b", "c"}, {"c", "a", "b"}, {"b", "b"}, {"A"}, {`"b"`}, {"a + 1"}, {"b", "lower(c)"}, {"rowid"}}
+	colsets := [][]string{{"a"}, {"b"}, {"c"}, {"a", "b"}, {"b", "a"}, {"c", "b"}, {"a", "b", "c"}, {"c", "a", "b"}, {"b", "b"}, {"A"}, {`"b"`}, {"'a'"}, {"'b'", "[a]"}, {"a + 1"}, {"b", "lower(c)"}, {"rowid"}}
 	var ixdefs []string
 	for _, cs := range colsets {
 		var rec func(i int, cur []string)
@@ -348,7 +348,7 @@ func c10Little(s *sdb.Schema) *c10View {
 }
 
 func runC10(r *ev.Run) {
-	r.Rule = "grammar-directed enumeration of CREATE TABLE statements (1-3 columns; types {none, INTEGER, integer, INT, TEXT, INTEGER(5)}; every ordered list of <=2 (3 thorough) column constraints from 15; 0-2 table constraints from 20 incl. duplicate/overlapping/re-ordered/collated/DESC ones and CONSTRAINT names; WITHOUT ROWID; 6 identifier spellings; identifiers, type names and keywords that differ only in non-ASCII case - SQLite folds ASCII only) and CREATE INDEX statements (UNIQUE, column permutations, per-column COLLATE/DESC, partial, expression columns, one or two indexes) on 5 base tables; only statements real SQLite accepts are judged; oracle: PRAGMA table_xinfo/index_list/index_xinfo + a behavioural rowid-alias probe + reading the probe row back. A definition sqlittle rejects is fine; an explicit index it leaves out is fine; every index it reports must match SQLite's index of that name; every automatic index must be reported. non-trivial = statements with at least one index or a primary key"
+	r.Rule = "grammar-directed enumeration of CREATE TABLE statements (1-3 columns; types {none, INTEGER, integer, INT, TEXT, INTEGER(5)}; every ordered list of <=2 (3 thorough) column constraints from 15; 0-2 table constraints from 20 incl. duplicate/overlapping/re-ordered/collated/DESC ones and CONSTRAINT names; WITHOUT ROWID; 7 identifier spellings incl. the string literal SQLite accepts where a name is expected; identifiers, type names and keywords that differ only in non-ASCII case - SQLite folds ASCII only) and CREATE INDEX statements (UNIQUE, column permutations, per-column COLLATE/DESC, partial, expression columns, one or two indexes) on 5 base tables; only statements real SQLite accepts are judged; oracle: PRAGMA table_xinfo/index_list/index_xinfo + a behavioural rowid-alias probe + reading the probe row back. A definition sqlittle rejects is fine; an explicit index it leaves out is fine; every index it reports must match SQLite's index of that name; every automatic index must be reported. non-trivial = statements with at least one index or a primary key"
 	cases := c10Generate(r.Thorough())
 	r.Set("generated_statements", len(cases))
 	// one SQLite connection per worker, reused (the table is dropped between cases)
